@@ -5,6 +5,7 @@ import (
 	"context"
 	"crypto/x509"
 	"fmt"
+	"os"
 	"strings"
 	"sync"
 	"testing"
@@ -62,6 +63,16 @@ func c15Body(s *simkit.Sim, rc *simkit.RunCtx) {
 	w := world.New(s, rc)
 	defer w.Shutdown()
 	ctx := context.Background()
+	if os.Getenv("C15DEBUG") != "" {
+		w.LogHook.Keep = true
+		defer func() {
+			for _, l := range w.LogHook.Lines {
+				if strings.Contains(l, "peer-byz") && !strings.HasPrefix(l, "trace") {
+					fmt.Println("LOG", trunc(l, 400))
+				}
+			}
+		}()
+	}
 	nn := 3 + s.D.Decide("nodes", 2)
 	sample.Nodes = nn
 	var names []string
@@ -192,12 +203,26 @@ func c15Body(s *simkit.Sim, rc *simkit.RunCtx) {
 	byz := &seams.Endpoint{Name: "byz", PeerID: "peer-byz", Inc: &seams.Incarnation{Node: "byz", Gen: 1, S: s}}
 	var bmu sync.Mutex
 	var byzGot [][]byte
+	byzTxs := map[hash.SHA256Hash][]byte{} // transactions of its own that the scripted peer hands out when asked
 	byz.OnMessage = func(from *seams.Endpoint, conn *seams.Conn, envelope interface{}) {
 		if e, ok := envelope.(*v2.Envelope); ok {
 			if tp := e.GetTransactionPayload(); tp != nil && len(tp.Data) > 0 {
 				bmu.Lock()
 				byzGot = append(byzGot, tp.Data)
 				bmu.Unlock()
+			}
+			if q := e.GetTransactionListQuery(); q != nil {
+				var txs []*v2.Transaction
+				bmu.Lock()
+				for _, r := range q.Refs {
+					if raw, ok := byzTxs[hash.FromSlice(r)]; ok {
+						txs = append(txs, &v2.Transaction{Data: raw}) // without payload: it does not have it
+					}
+				}
+				bmu.Unlock()
+				if len(txs) > 0 {
+					_ = w.P2P.Inject("byz", from.Name, &v2.Envelope{Message: &v2.Envelope_TransactionList{TransactionList: &v2.TransactionList{ConversationID: q.ConversationID, Transactions: txs, TotalMessages: 1, MessageNumber: 1}}})
+				}
 			}
 		}
 	}
@@ -244,7 +269,17 @@ func c15Body(s *simkit.Sim, rc *simkit.RunCtx) {
 			peer := conn.Peer()
 			isPayloadMsg := e != nil && e.GetTransactionPayload() != nil
 			senderDID, senderHasDID := dids[from.Name]
+			servedForOwnTx := false
+			if isPayloadMsg {
+				bmu.Lock()
+				_, servedForOwnTx = byzTxs[hash.FromSlice(e.GetTransactionPayload().TransactionRef)]
+				bmu.Unlock()
+			}
 			switch {
+			case servedForOwnTx:
+				// the payload was asked for, and served, as the payload of a transaction of the peer's own that declares the same payload hash
+				s.Fail("C15.leak", "served-as-payload-of-another-transaction-with-the-same-hash", "node %s sent the payload of private transaction %s (participants %v) to %s (%s, authenticated=%v as %s) as the payload of that peer's own transaction %s, which declares the same payload hash",
+					from.Name, p.ref, p.names, to.Name, byzIdentity[from.Name], peer.Authenticated, peer.NodeDID, hash.FromSlice(e.GetTransactionPayload().TransactionRef))
 			case !isPayloadMsg:
 				s.Fail("C15.leak", "wrong-message:"+fmt.Sprintf("%T", e.Message), "node %s put the payload of private transaction %s into a %T sent to %s", from.Name, p.ref, e.Message, to.Name)
 			case !peer.Authenticated:
@@ -382,6 +417,55 @@ func c15Body(s *simkit.Sim, rc *simkit.RunCtx) {
 				sample.Pushed += 2
 				_ = w.P2P.Inject("byz", target, &v2.Envelope{Message: &v2.Envelope_TransactionPayload{TransactionPayload: &v2.TransactionPayload{TransactionRef: refb, Data: wrong}}})
 				_ = w.P2P.Inject("byz", target, &v2.Envelope{Message: &v2.Envelope_TransactionPayload{TransactionPayload: &v2.TransactionPayload{TransactionRef: unknownRef, Data: wrong}}})
+			}
+		}
+		// A public transaction of the peer's own that declares the payload hash of the private transaction (the hash is in
+		// the private transaction's header, which everybody has). Payloads are stored by hash: whoever serves "the payload of
+		// this public transaction" serves the private payload.
+		if s.D.Decide("public-tx-with-private-payload-hash", 2) == 1 {
+			bkey := world.NewKey()
+			// as a public transaction it must come with its payload (which the peer does not have); as a private transaction of
+			// its own - participants: itself ("outsider") and the node it will ask - it may come without
+			var epal dag.EncryptedPAL
+			victim := ""
+			if s.D.Decide("as-private-transaction", 3) != 0 {
+				var holders []string
+				for _, name := range names {
+					if p.pal[dids[name].String()] && byzIdentity[name] == "authenticated-unlisted" {
+						holders = append(holders, name)
+					}
+				}
+				if len(holders) > 0 {
+					victim = holders[s.D.Decide("victim", len(holders))]
+					epal, _ = dag.PAL{dids["outsider"], dids[victim]}.Encrypt(resolver.DIDKeyResolver{Resolver: w.Nodes[victim].DIDs})
+					if epal != nil {
+						s.Probes.Inc("own-private-transaction-with-foreign-payload-hash-offered")
+					}
+				}
+			}
+			utx, uerr := dag.NewTransaction(tx.PayloadHash(), "application/x-sim-public", []hash.SHA256Hash{tx.Ref()}, epal, tx.Clock()+1)
+			if uerr == nil {
+				if signed, serr := dag.NewTransactionSigner(world.MemSigner{Key: bkey}, "", bkey.Public()).Sign(ctx, utx, time.Now()); serr == nil {
+					bmu.Lock()
+					byzTxs[signed.Ref()] = signed.Data()
+					bmu.Unlock()
+					s.Probes.Inc("public-transaction-with-private-payload-hash-offered")
+					for _, target := range names {
+						// advertise it so that the node asks for it
+						x, _ := w.Nodes[target].State().XOR(dag.MaxLamportClock)
+						x = x.Xor(signed.Ref())
+						_ = w.P2P.Inject("byz", target, &v2.Envelope{Message: &v2.Envelope_Gossip{Gossip: &v2.Gossip{XOR: x.Slice(), LC: tx.Clock() + 1, Transactions: [][]byte{signed.Ref().Slice()}}}})
+					}
+					s.Advance(3 * time.Second)
+					for _, target := range names {
+						if present, _ := w.Nodes[target].State().IsPresent(ctx, signed.Ref()); present {
+							s.Probes.Inc("public-transaction-with-private-payload-hash-admitted")
+						}
+						_ = w.P2P.Inject("byz", target, &v2.Envelope{Message: &v2.Envelope_TransactionPayloadQuery{TransactionPayloadQuery: &v2.TransactionPayloadQuery{TransactionRef: signed.Ref().Slice()}}})
+						_ = w.P2P.Inject("byz", target, &v2.Envelope{Message: &v2.Envelope_TransactionListQuery{TransactionListQuery: &v2.TransactionListQuery{ConversationID: []byte("conv-1234567890-abcdef-1234567893"), Refs: [][]byte{signed.Ref().Slice()}}}})
+					}
+					s.Advance(3 * time.Second)
+				}
 			}
 		}
 		s.Advance(time.Duration(5+s.D.Decide("settle", 20)) * time.Second)
